@@ -205,7 +205,8 @@ class SubQueryLineageHolder(ColumnLineageMixin):
         qualified_map = {
             str(table): table for table in table_group if isinstance(table, Table)
         }
-        return alias_map | unqualified_map | qualified_map
+        # alias comes last: an alias shadows a table name, i.e. in "FROM a b JOIN s.b y", b refers to table a
+        return unqualified_map | qualified_map | alias_map
 
     def _get_target_table(self) -> Optional[Union[SubQuery, Table]]:
         table = None
